@@ -100,7 +100,7 @@ func (c *Ctx) fieldTrail(v ssa.Value, depth int) (string, bool) {
 	}
 	switch x := v.(type) {
 	case *ssa.Parameter:
-		return "", true
+		return c.paramTrail[x], true
 	case *ssa.FreeVar:
 		return "", true
 	case *ssa.Alloc:
@@ -548,33 +548,78 @@ func (c *Ctx) scopeAndRef(rule string) {
 			}
 			ok := false
 			why := "the table handed to the scope's objects is not `own objects if namespace == SelfNamespace else the external table`"
+			// the ways the table comes about: the two edges of a merge, or the two returns of a same-receiver helper that
+			// is handed the external table and the namespace
+			type way struct {
+				val   ssa.Value
+				conds []core.Cond
+			}
+			var ways []way
+			g, ext, ns := fn, fn.Params[1], fn.Params[2]
 			if phi, isPhi := args[0].(*ssa.Phi); isPhi && len(phi.Edges) == 2 {
-				ownIdx, extIdx := -1, -1
 				for i, e := range phi.Edges {
-					if e == ssa.Value(fn.Params[1]) {
+					pred := phi.Block().Preds[i]
+					ways = append(ways, way{e, append(core.CondsAt(pred), edgeCond(pred, phi.Block())...)})
+				}
+			} else if hc, isCall := args[0].(*ssa.Call); isCall {
+				if h := core.StaticBody(&hc.Call); h != nil && h.Signature.Recv() != nil && len(hc.Call.Args) > 0 && hc.Call.Args[0] == ssa.Value(fn.Params[0]) {
+					var hext, hns *ssa.Parameter
+					for i, a := range hc.Call.Args {
+						if a == ssa.Value(fn.Params[1]) {
+							hext = h.Params[i]
+						}
+						if a == ssa.Value(fn.Params[2]) {
+							hns = h.Params[i]
+						}
+					}
+					if rets := core.ReturnsOf(h); hext != nil && hns != nil && len(rets) == 2 {
+						g, ext, ns = h, hext, hns
+						for _, r := range rets {
+							if len(r.Results) == 1 {
+								ways = append(ways, way{r.Results[0], core.CondsAt(r.Block())})
+							}
+						}
+					}
+				}
+			}
+			// what the conditions of a way say about `namespace == ""`: +1 equal, -1 different, 0 nothing
+			saysSelf := func(conds []core.Cond) int {
+				for _, cond := range conds {
+					if bin, isBin := cond.V.(*ssa.BinOp); isBin && (bin.Op.String() == "==" || bin.Op.String() == "!=") {
+						isEq := (bin.Op.String() == "==") == cond.True
+						var other ssa.Value
+						if bin.X == ssa.Value(ns) {
+							other = bin.Y
+						} else if bin.Y == ssa.Value(ns) {
+							other = bin.X
+						}
+						if other != nil {
+							if s, isStr := core.ConstString(other); isStr && s == "" {
+								if isEq {
+									return 1
+								}
+								return -1
+							}
+						}
+					}
+				}
+				return 0
+			}
+			if len(ways) == 2 {
+				ownIdx, extIdx := -1, -1
+				for i, w := range ways {
+					if w.val == ssa.Value(ext) {
 						extIdx = i
-					} else if p := c.M.ValPath(e); p == fn.Params[0].Name()+".ObjectsValue" {
+					} else if p := c.M.ValPath(w.val); p == g.Params[0].Name()+".ObjectsValue" {
 						ownIdx = i
 					}
 				}
 				if ownIdx >= 0 && extIdx >= 0 {
-					// the own-table edge must come from the `namespace == ""` branch
-					pred := phi.Block().Preds[ownIdx]
-					for _, cond := range append(core.CondsAt(pred), edgeCond(pred, phi.Block())...) {
-						if bin, isBin := cond.V.(*ssa.BinOp); isBin && (bin.Op.String() == "==" || bin.Op.String() == "!=") {
-							isEq := (bin.Op.String() == "==") == cond.True
-							var other ssa.Value
-							if bin.X == ssa.Value(fn.Params[2]) {
-								other = bin.Y
-							} else if bin.Y == ssa.Value(fn.Params[2]) {
-								other = bin.X
-							}
-							if other != nil && isEq {
-								if s, isStr := core.ConstString(other); isStr && s == "" {
-									ok = true
-								}
-							}
-						}
+					// the own table must come from the `namespace == ""` branch (and, where the two ways are separate
+					// returns, the external table from the other one)
+					ok = saysSelf(ways[ownIdx].conds) == 1
+					if ok && g != fn && saysSelf(ways[extIdx].conds) != -1 {
+						ok = false
 					}
 					if !ok {
 						why = "the scope's own table is not selected by `namespace == SelfNamespace`"
@@ -789,8 +834,11 @@ func (c *Ctx) loadersLink(rule string) {
 		{"schema.UnserializeSchema", "SchemaSchema"},
 		{"schema.UnserializeScope", "ScopeSchema"},
 	} {
-		fn := c.fn(rule, spec.fn)
+		// the loader itself, not the worker it may only hand over to: what it passes the worker (the linking step as a
+		// function value) is part of what is looked at
+		fn := c.lookupFn(spec.fn)
 		if fn == nil {
+			c.R.Unresolved(rule, "function "+spec.fn)
 			continue
 		}
 		obj := c.M.Types["schema"].Scope().Lookup(spec.typ)
@@ -812,6 +860,7 @@ func (c *Ctx) loadersLink(rule string) {
 		type binding map[*ssa.Parameter]*ssa.Function
 		visited := map[*ssa.Function]bool{}
 		var visit func(f *ssa.Function, bound binding, depth int)
+		c.paramTrail = map[*ssa.Parameter]string{}
 		funcValue := func(v ssa.Value) *ssa.Function {
 			for i := 0; i < 3; i++ {
 				switch x := v.(type) {
@@ -831,7 +880,7 @@ func (c *Ctx) loadersLink(rule string) {
 			return nil
 		}
 		visit = func(f *ssa.Function, bound binding, depth int) {
-			if depth > 4 || (visited[f] && len(bound) == 0) {
+			if depth > 4 || (visited[f] && len(bound) == 0 && len(c.paramTrail) == 0) {
 				return
 			}
 			visited[f] = true
@@ -871,6 +920,9 @@ func (c *Ctx) loadersLink(rule string) {
 					switch {
 					case strings.HasPrefix(c.M.Key(target), "schema."+spec.typ+"."):
 						visit(target, nil, depth+1)
+					case target.Parent() != nil:
+						// a function literal that was handed in and is called here
+						visit(target, nil, depth+1)
 					case len(core.PlainSites(target)) > 0:
 						inner := binding{}
 						for i, a := range call.Call.Args {
@@ -883,12 +935,30 @@ func (c *Ctx) loadersLink(rule string) {
 								inner[target.Params[i]] = bound[p]
 							}
 						}
+						// a part of the result handed to a worker: the worker's parameter stands for that part
+						var set []*ssa.Parameter
+						for i, a := range call.Call.Args {
+							if i >= len(target.Params) {
+								break
+							}
+							if _, had := c.paramTrail[target.Params[i]]; had {
+								continue
+							}
+							if t, ok := c.fieldTrail(a, 0); ok && t != "" {
+								c.paramTrail[target.Params[i]] = t
+								set = append(set, target.Params[i])
+							}
+						}
 						visit(target, inner, depth+1)
+						for _, p := range set {
+							delete(c.paramTrail, p)
+						}
 					}
 				}
 			}
 		}
 		visit(fn, nil, 0)
+		c.paramTrail = nil
 		for _, w := range want {
 			desc := w
 			if desc == "" {
